@@ -916,13 +916,44 @@ class OrderKind(AbsInt):
             return None
         apps = [n for n in walk_no_nested(fr.fn.node) if isinstance(n, ast.Call) and isinstance(n.func, ast.Attribute)
                 and n.func.attr == 'append' and isinstance(n.func.value, ast.Name) and n.func.value.id == nm]
-        if len(apps) != 1:
-            return TOP if apps else None
-        stmt = apps[0]._parent
+        if not apps:
+            return None
+        per_loop = {}
+        for app in apps:
+            r = self._append_site(app, fr)
+            if r is None:
+                return TOP
+            loop, tag, branch = r
+            per_loop.setdefault(id(loop), (loop, []))[1].append((tag, branch))
+        tags = []
+        for loop, sites in sorted(per_loop.values(), key=lambda x: x[0].lineno):
+            if len(sites) == 1:
+                tags.append(sites[0][0])
+            elif len(sites) == 2 and sites[0][1] is not None and sites[1][1] is not None and sites[0][1][0] is sites[1][1][0] \
+                    and {sites[0][1][1], sites[1][1][1]} == {'body', 'orelse'} and sites[0][0] == sites[1][0]:
+                tags.append(sites[0][0])  # one append in each arm of the same if/else: every iteration appends once
+            else:
+                return TOP
+        loops = [l for l, _ in per_loop.values()]
+        for a in loops:
+            for b in loops:
+                if a is not b and any(x is b for x in ast.walk(a)):
+                    return TOP  # nested loops: order not modelled
+        if any(t is TOP for t in tags):
+            return TOP
+        tag = tags[0]
+        for t in tags[1:]:
+            tag = ('concat', tag, t)
+        return ('ord', tag)
+
+    def _append_site(self, app, fr):
+        """(loop, order tag of the appended elements, (if node, arm) when the append sits in one arm of an if/else)."""
+        stmt = app._parent
         chain = []
         p = stmt._parent
         child = stmt
         loop = None
+        branch = None
         while p is not None and p is not fr.fn.node:
             if isinstance(p, ast.For):
                 loop = p
@@ -930,18 +961,31 @@ class OrderKind(AbsInt):
             if isinstance(p, ast.If) and child in p.body and not p.orelse:
                 chain.append(p.test)
             elif isinstance(p, ast.If):
-                return TOP
+                if branch is not None:
+                    return None
+                branch = (p, 'body' if child in p.body else 'orelse')
+            # statements before `child` in this block that can skip the rest of the iteration
+            for blk in (getattr(p, 'body', []), getattr(p, 'orelse', [])):
+                if child in blk:
+                    for prev in blk[:blk.index(child)]:
+                        if isinstance(prev, ast.If) and any(isinstance(x, (ast.Continue, ast.Break)) for x in ast.walk(prev)):
+                            chain.append(ast.UnaryOp(op=ast.Not(), operand=prev.test))
             child = p
             p = p._parent
         if loop is None:
-            return TOP
+            return None
+        for prev in loop.body[:loop.body.index(child)] if child in loop.body else []:
+            if isinstance(prev, ast.If) and any(isinstance(x, (ast.Continue, ast.Break)) for x in ast.walk(prev)):
+                chain.append(ast.UnaryOp(op=ast.Not(), operand=prev.test))
         tag = self.loop_order(loop.iter, fr, loop)
+        if tag is TOP:
+            return loop, TOP, branch
         for t in chain:
             k = self._membership(t, fr, loop.target)
             if k == 'IDENT' and tag == ('cols',):
                 continue
             tag = ('filter', tag, k if k is not None else 'cond:' + ast.unparse(t)[:40])
-        return ('ord', tag) if tag is not TOP else TOP
+        return loop, tag, branch
 
     # ------------------------------------------------------------------- calls
     def external_call(self, name, node, fr):
